@@ -101,19 +101,19 @@ TP_MoreValues(st, i) ==
   CASE st.state = "paramFNxt" -> TP_Ret([st EXCEPT !.state = "paramInitNxtVal"], i, MOREVALUES)
     [] OTHER -> TP_Ret([st EXCEPT !.state = "paramERR"], i, BUG)
 
-RECURSIVE TP_Run(_, _, _, _, _), TP_WS(_, _, _, _, _, _)
+RECURSIVE TP_Run(_, _, _, _), TP_WS(_, _, _, _, _)
 
 \* the `case ' ', '\t', '\n', '\r':` arm of every state: skipLWS; on MoreBytes the state is kept (st) and
 \* the offset stays before the white space; otherwise the arm's updates are applied first (st1).
-TP_WS(buf, i, st, st1, flags, offs0) ==
+TP_WS(buf, i, st, st1, flags) ==
   LET r == SkipLWS(buf, i, TP_Has(flags, F_InputEnd)) IN
     CASE r.e = MORE -> TP_MoreBytes(buf, i, st, flags)
-      [] r.e = OK   -> TP_Run(buf, r.o, st1, flags, offs0)                  \* i = n; continue
+      [] r.e = OK   -> TP_Run(buf, r.o, st1, flags)                  \* i = n; continue
       [] r.e = EOH  -> TP_EndOfHdr(st1, r.o, r.crl)
       [] OTHER      -> TP_Ret(st1, r.o, r.e)
 
-\* the main loop; offs0 = the offset the *call* started at (the `i >= offs+1` tests)
-TP_Run(buf, i, st, flags, offs0) ==
+\* the main loop
+TP_Run(buf, i, st, flags) ==
   IF i >= Len(buf) THEN TP_MoreBytes(buf, i, st, flags)
   ELSE
     LET c      == B(buf, i)
@@ -122,21 +122,22 @@ TP_Run(buf, i, st, flags, offs0) ==
         isWS   == c = SP \/ c = HT \/ c = LF \/ c = CR
         isTerm == c = term /\ term # 0
         ok     == TokAllowedChar(c, flags)
-        Step(s) == TP_Run(buf, i + 1, s, flags, offs0)
+        Step(s) == TP_Run(buf, i + 1, s, flags)
         Bad    == TP_Ret([st EXCEPT !.state = "paramERR"], i, BADCHAR)
-        \* NOTE: "return separator pos (as expected)": i-1 only if at least one byte was consumed by THIS
-        \* call -- a call resumed exactly at the token (possible after a quoted value) returns i instead.
-        SpTerm == TP_Ret([st EXCEPT !.state = "paramFIN"], IF i >= offs0 + 1 THEN i - 1 ELSE i, OK)
+        \* "return separator pos (as expected)": the byte before the token if it is white space, else (no white
+        \* space before the token, e.g. p="v"bar) the token start.  Does not depend on where the call started.
+        prevWS == i > 0 /\ (B(buf, i - 1) = SP \/ B(buf, i - 1) = HT \/ B(buf, i - 1) = CR \/ B(buf, i - 1) = LF)
+        SpTerm == TP_Ret([st EXCEPT !.state = "paramFIN"], IF prevWS THEN i - 1 ELSE i, OK)
     IN
     CASE st.state \in {"paramInit", "paramInitNxtVal", "paramFNxt"} ->
-           IF isWS THEN TP_WS(buf, i, st, st, flags, offs0)
+           IF isWS THEN TP_WS(buf, i, st, st, flags)
            ELSE IF c = sep THEN Step(st)                                     \* allow empty params, skip them
            ELSE IF ~ok THEN Bad
            ELSE IF st.state = "paramFNxt" THEN TP_MoreValues(st, i)
            ELSE Step([st EXCEPT !.state = "paramName", !.name = PFSet(i, i), !.all = PFSet(i, i)])
       [] st.state = "paramName" ->
            IF isWS THEN TP_WS(buf, i, st, [st EXCEPT !.state = "paramFEq", !.name = PFExtend(@, i),
-                                                     !.all = PFExtend(@, i)], flags, offs0)
+                                                     !.all = PFExtend(@, i)], flags)
            ELSE IF c = EQ THEN Step([st EXCEPT !.name = PFExtend(@, i), !.all = PFExtend(@, i + 1),
                                                !.state = "paramFVal"])
            ELSE IF isTerm THEN TP_Ret([st EXCEPT !.name = PFExtend(@, i), !.all = PFExtend(@, i),
@@ -146,7 +147,7 @@ TP_Run(buf, i, st, flags, offs0) ==
            ELSE IF ~ok THEN Bad
            ELSE Step(st)
       [] st.state = "paramFEq" ->
-           IF isWS THEN TP_WS(buf, i, st, st, flags, offs0)
+           IF isWS THEN TP_WS(buf, i, st, st, flags)
            ELSE IF c = EQ THEN Step([st EXCEPT !.state = "paramFVal"])       \* NOTE: All is not extended here
            ELSE IF isTerm THEN TP_Ret([st EXCEPT !.state = "paramFIN"], i, OK)
            ELSE IF c = sep THEN Step([st EXCEPT !.state = "paramFNxt"])
@@ -154,7 +155,7 @@ TP_Run(buf, i, st, flags, offs0) ==
            ELSE IF TP_Has(flags, F_SpTerm) THEN SpTerm
            ELSE Bad
       [] st.state = "paramFVal" ->
-           IF isWS THEN TP_WS(buf, i, st, st, flags, offs0)
+           IF isWS THEN TP_WS(buf, i, st, st, flags)
            ELSE IF c = DQUOTE THEN Step([st EXCEPT !.val = PFSet(i, i), !.all = PFExtend(@, i),
                                                    !.state = "paramQuotedVal"])
            ELSE IF isTerm THEN TP_Ret([st EXCEPT !.val = PFSet(i, i), !.state = "paramFIN"], i, OK)  \* NOTE: All not extended
@@ -164,7 +165,7 @@ TP_Run(buf, i, st, flags, offs0) ==
            ELSE Step([st EXCEPT !.state = "paramVal", !.val = PFSet(i, i), !.all = PFExtend(@, i)])
       [] st.state = "paramVal" ->
            IF isWS THEN TP_WS(buf, i, st, [st EXCEPT !.state = "paramFSep", !.val = PFExtend(@, i),
-                                                     !.all = PFExtend(@, i)], flags, offs0)
+                                                     !.all = PFExtend(@, i)], flags)
            ELSE IF isTerm THEN TP_Ret([st EXCEPT !.val = PFExtend(@, i), !.all = PFExtend(@, i),
                                                  !.state = "paramFIN"], i, OK)
            ELSE IF c = sep THEN Step([st EXCEPT !.val = PFExtend(@, i), !.all = PFExtend(@, i),
@@ -175,11 +176,11 @@ TP_Run(buf, i, st, flags, offs0) ==
            LET q == SkipQuoted(buf, i) IN
              CASE q.e = MORE -> TP_MoreBytes(buf, q.o, st, flags)            \* i = n; goto moreBytes
                [] q.e = OK   -> TP_Run(buf, q.o, [st EXCEPT !.val = PFExtend(@, q.o), !.all = PFExtend(@, q.o),
-                                                           !.state = "paramFSep"], flags, offs0)
+                                                           !.state = "paramFSep"], flags)
                \* `if err == ErrHdrEOH { goto endOfHdr }` is dead code: SkipQuoted never returns EOH
                [] OTHER      -> TP_Ret(st, q.o, q.e)                         \* NOTE: state stays paramQuotedVal
       [] st.state = "paramFSep" ->
-           IF isWS THEN TP_WS(buf, i, st, st, flags, offs0)
+           IF isWS THEN TP_WS(buf, i, st, st, flags)
            ELSE IF isTerm THEN TP_Ret([st EXCEPT !.state = "paramFIN"], i, OK)
            ELSE IF c = sep THEN Step([st EXCEPT !.state = "paramFNxt"])
            ELSE IF ~ok THEN Bad
@@ -190,7 +191,7 @@ TP_Run(buf, i, st, flags, offs0) ==
 \* func ParseTokenParam(buf, offs, param, flags) (int, ErrorHdr)   -- raw: no PANIC verdict
 TokParam_Parse(buf, offs, st, flags) ==
   IF st.state = "paramFIN" THEN TP_Ret(st, offs, OK)                         \* called again after finishing
-  ELSE TP_Run(buf, offs, st, flags, offs)
+  ELSE TP_Run(buf, offs, st, flags)
 
 TokParam_Call(buf, offs, st, cfg) ==
   LET r == TokParam_Parse(buf, offs, st, cfg.flags) IN TP_Panicify(r, TokParam_Panicked(r.st))
